@@ -105,6 +105,15 @@ Theorem C17_counters : forall h ch,
 Proof. exact counters. Qed.
 Print Assumptions C17_counters.
 
+(* CAVEAT for the liveness theorems below (model vs. gevent 26.8): the model's EvDone releases EVERY connection that is
+   blocked on the job, including a client that started waiting on the already finished job while the notifier was still
+   pending (Wait blocks on `done_pending`).  Real gevent registers such a late client on the pending notifier object and
+   CANCELS that notifier when the last earlier waiter is killed before it ran: the late client is then never released
+   (A 0 0 - -;W 1 a1;D 1;K 7 a1;W 5 a1;L - reproduced on /repo, reported, proposed patch /verif/fixes/C17-wait-lost-wakeup.diff:
+   waitjobs must not wait on the event of a job that is already done).  That corner is excluded from the differential
+   run's generators until the patch is in /repo; with the patch Wait on a finished job returns at once and the
+   `done_pending` premise of C17_wait_done_immediate disappears. *)
+
 (* "Clients waiting for a job are released exactly when it is finished", liveness half.
    Hub invariant, for EVERY history: a connection blocked in a wait either waits for an unfinished job, or the wake-up
    (the notifier of its job's finish event, EvDone) is queued in the hub. *)
